@@ -29,6 +29,9 @@ def value(rnd, letter):
         big = 10 ** rnd.randint(-3, 4)
         s = fmt(rnd.uniform(-1, 1) * big, rnd.choice([0, 1, 3, 6]))
         return s
+    if k < 0.33 and letter in "FZES":
+        # very long literals (a generator that prints integers of any size): 19 .. 30 digits, still far from float overflow
+        return rnd.choice(["", "-"] if letter != "F" else [""]) + str(rnd.randint(1, 9)) + "0" * rnd.randint(18, 29)
     if k < 0.42:
         e = rnd.randint(-12, 15)
         if e < 0:
@@ -129,8 +132,8 @@ class C09(Monitor):
             "checksums); contract: no exception, result is None / (None,) / non-empty list of non-empty str; process_line returns "
             "None or a non-empty str; one case = one sequence; non-trivial = sequence in which an episode opened and a generated "
             "command was returned; distinct by digest")
-    assumptions = ["arc radius (I/J/R) <= 1e4 units and literals <= 18 digits (planArc is O(arc length); longer literals overflow "
-                   "to inf) - stated bounds", "a command exceeding the 2 s watchdog is counted as slow_case and not judged"]
+    assumptions = ["arc radius (I/J/R) <= 1e4 units (planArc is O(arc length)); X/Y literals <= 18 digits, F/Z/E/S literals up to 30 "
+                   "digits - stated bounds", "a command exceeding the 2 s watchdog is counted as slow_case and not judged"]
 
 
     def gen_case(self, rnd, tier, k):
